@@ -398,6 +398,8 @@ def eff_1(ctx, rep, only=None, minimum=60):
                        'write to shared state (%s) reachable at parse time via %s' % (why, ' -> '.join(call_path(prev, key)[-4:])))
     # mutable defaults are never mutated anywhere
     for f, p in eff.mutable_defaults:
+        if only is not None and f.key not in reach:
+            continue            # a property's own entry points: the default object of a function they never reach is not its concern
         aliases = eff._aliases(f)
         bad = [n for n, why in eff.shared_writes(f) if 'mutable default' in why]
         # the default object may also be stored on self and mutated elsewhere: attribute name = parameter name
